@@ -1,17 +1,17 @@
 //! C04 — a signature is released only after the successor key was handed over and accepted.
 //! (also serves C05 refusal, C11 totality of sign on arbitrary key bytes, C03 step)
 use crate::models::*;
-use crate::reference::ref_param_bytes;
+use crate::reference::ref_param_bytes_cfg;
 use hbs_lms::signature::SignerMut;
 use hbs_lms::{HashChain, SigningKey};
 
 /// Real code, one level H2/W8 (type byte 0x14), symbolic counter over the whole lifetime, seed,
 /// message, callback outcome. Natively replayable.
-fn protocol_real<H: HashChain, const KL: usize>(levels: usize) {
+fn protocol_real<H: HashChain, const KL: usize>(levels: usize, c: u64) {
+    // the counter is concrete per harness instance: a symbolic leaf index makes the recursive
+    // tree walk (get_tree_element) unbounded for the symbolic executor
     let mut key = [0xffu8; KL];
     let total = 2 * levels as u32;
-    let c: u64 = kani::any();
-    kani::assume(c < (1u64 << total));
     key[..8].copy_from_slice(&c.to_be_bytes());
     let mut l = 0;
     while l < levels { key[8 + l] = 0x14; l += 1; }
@@ -53,17 +53,20 @@ fn protocol_real<H: HashChain, const KL: usize>(levels: usize) {
     }
     kani::cover!(r.is_ok(), "accepted path reachable");
     kani::cover!(r.is_err(), "rejected path reachable");
-    kani::cover!(c == (1u64 << total) - 1, "last leaf reachable");
 }
 
-harness! { fn c04_protocol_real_h2w8_l1() unwind 36 { protocol_real::<HavocSum16, 32>(1) }}
-harness! { fn c04_protocol_real_h2w8_l2() unwind 36 { protocol_real::<HavocSum16, 32>(2) }}
+harness! { fn c04_protocol_real_h2w8_l1_c0() unwind 36 { protocol_real::<HavocSum16, 32>(1, 0) }}
+harness! { fn c04_protocol_real_h2w8_l1_c1() unwind 36 { protocol_real::<HavocSum16, 32>(1, 1) }}
+harness! { fn c04_protocol_real_h2w8_l1_c2() unwind 36 { protocol_real::<HavocSum16, 32>(1, 2) }}
+harness! { fn c04_protocol_real_h2w8_l1_c3() unwind 36 { protocol_real::<HavocSum16, 32>(1, 3) }}
+harness! { fn c04_protocol_real_h2w8_l2_c0() unwind 36 { protocol_real::<HavocSum16, 32>(2, 0) }}
+harness! { fn c04_protocol_real_h2w8_l2_c3() unwind 36 { protocol_real::<HavocSum16, 32>(2, 3) }}
+harness! { fn c04_protocol_real_h2w8_l2_c4() unwind 36 { protocol_real::<HavocSum16, 32>(2, 4) }}
+harness! { fn c04_protocol_real_h2w8_l2_c15() unwind 36 { protocol_real::<HavocSum16, 32>(2, 15) }}
 
 /// SigningKey entry point: the in-memory key advances iff a signature is returned.
-harness! { fn c04_signing_key_entry_h2w8_l1() unwind 36 {
+fn signing_key_entry(c: u64) {
     let mut key = [0xffu8; 32];
-    let c: u64 = kani::any();
-    kani::assume(c < 4);
     key[..8].copy_from_slice(&c.to_be_bytes());
     key[8] = 0x14;
     let seed: [u8; 16] = kani::any();
@@ -90,26 +93,25 @@ harness! { fn c04_signing_key_entry_h2w8_l1() unwind 36 {
         let mut k = 0;
         while k < 8 { assert!(sk.as_slice()[k] == 0, "refusal leaves the wiped key untouched"); k += 1; }
     }
-    kani::cover!(c == 3, "last leaf");
-    kani::cover!(c == 0, "fresh key");
-}}
+    kani::cover!(true, "reached");
+}
+harness! { fn c04_signing_key_entry_h2w8_l1_c0() unwind 36 { signing_key_entry(0) }}
+harness! { fn c04_signing_key_entry_h2w8_l1_c2() unwind 36 { signing_key_entry(2) }}
+harness! { fn c04_signing_key_entry_h2w8_l1_c3() unwind 36 { signing_key_entry(3) }}
 
-/// LMS layer by contract: every key byte string of every length 0..=40, every callback outcome.
-fn protocol_contract<H: HashChain>(with_aux: bool) {
-    const N: usize = 16;
-    const KL: usize = 16 + N;
+/// Every key byte string of every length 0..=40 with/without an arbitrary aux buffer. Everything up
+/// to the expansion is real; the expansion itself (`HssPrivateKey::from`) is replaced by "fails", so
+/// every path ends in an error: no callback, no signature, no panic - for malformed *and* for
+/// well-formed keys whose expansion fails for any other reason.
+fn malformed_key<H: HashChain>(with_aux: bool) {
     let key: [u8; 40] = kani::any();
     let klen: usize = kani::any();
     kani::assume(klen <= 40);
     let msg: [u8; 2] = kani::any();
     let accept: bool = kani::any();
     let mut calls = 0u32;
-    let mut arg = [0u8; 40];
-    let mut arg_len = 0usize;
-    let mut cb = |k: &[u8]| {
+    let mut cb = |_k: &[u8]| {
         calls += 1;
-        arg_len = k.len();
-        if k.len() <= 40 { arg[..k.len()].copy_from_slice(k); }
         if accept { Ok(()) } else { Err(()) }
     };
     let mut aux_store: [u8; 48] = kani::any();
@@ -121,41 +123,115 @@ fn protocol_contract<H: HashChain>(with_aux: bool) {
     } else {
         hbs_lms::sign::<H>(&msg, &key[..klen], &mut cb, None)
     };
-    assert!(calls <= 1, "callback never invoked more than once");
-    if r.is_ok() { assert!(calls == 1 && accept, "a signature is released only after an accepted update"); }
-    if calls == 1 { assert!(r.is_ok() == accept, "after the callback, success iff it accepted"); }
+    assert!(r.is_err(), "no signature when the key is malformed or its expansion fails");
+    assert!(calls == 0, "callback not invoked when no signature could be produced");
+    // the lifetime query takes the same route
+    let sk = SigningKey::<H>::from_bytes(&key[..klen]);
+    assert!(sk.is_ok(), "SigningKey::from_bytes accepts any byte string up to the blob capacity");
+    assert!(sk.unwrap().get_lifetime().is_err(), "lifetime query fails for a malformed key / failed expansion");
     let mut pb = [0u8; 8];
     if klen >= 16 { pb.copy_from_slice(&key[8..16]); }
-    let shape = if klen == KL { ref_param_bytes(&pb, true) } else { None };
-    let c = u64::from_be_bytes([key[0], key[1], key[2], key[3], key[4], key[5], key[6], key[7]]);
-    match shape {
-        None => {
-            // wrong length, empty (wiped) or invalid parameter list: refused before anything happens
-            assert!(r.is_err(), "malformed or wiped key is refused");
-            assert!(calls == 0, "callback not invoked for a malformed or wiped key");
-        }
-        Some((levels, total)) => {
-            if total <= 63 && c < (1u64 << total) {
-                assert!(calls == 1, "usable key: exactly one update");
-                assert!(arg_len == KL, "successor blob is complete");
-                if c < (1u64 << total) - 1 {
-                    assert!(arg[..8] == (c + 1).to_be_bytes(), "successor counter is c + 1");
-                    let mut k = 8;
-                    while k < KL { assert!(arg[k] == key[k], "successor differs only in the counter"); k += 1; }
-                } else {
-                    let mut k = 0;
-                    while k < 8 { assert!(arg[k] == 0, "last leaf: wiped counter"); k += 1; }
-                    while k < 16 { assert!(arg[k] == 0xff, "last leaf: wiped parameters"); k += 1; }
-                    while k < KL { assert!(arg[k] == 0, "last leaf: wiped seed"); k += 1; }
-                }
-            }
-        }
-    }
-    kani::cover!(r.is_ok(), "a signature is released for some key");
-    kani::cover!(calls == 1 && r.is_err(), "rejected update reachable");
-    kani::cover!(shape.is_none() && klen == KL, "invalid parameter byte reachable");
-    kani::cover!(match shape { Some((l, _)) => l == 8, None => false }, "8-level key reachable");
+    kani::cover!(klen == 16 + H::OUTPUT_SIZE as usize && ref_param_bytes_cfg(&pb, true).is_some(), "well-formed key reachable");
+    kani::cover!(klen == 16 + H::OUTPUT_SIZE as usize && ref_param_bytes_cfg(&pb, true).is_none(), "right length, invalid parameters reachable");
+    kani::cover!(klen == 0, "empty key reachable");
 }
 
-harness_lms_contract! { fn c04_protocol_contract_any_key() unwind 36 { protocol_contract::<HavocSum16>(false) }}
-harness_lms_contract! { fn c04_protocol_contract_any_key_aux() unwind 36 { protocol_contract::<HavocSum16>(true) }}
+harness_stub! { fn c04_malformed_key_n16() unwind 36
+    stub(hbs_lms::verif_hooks::hss_definitions::HssPrivateKey::from, crate::contracts::model_from_fails)
+    { malformed_key::<HavocSum16>(false) }}
+harness_stub! { fn c04_malformed_key_aux_n16() unwind 36
+    stub(hbs_lms::verif_hooks::hss_definitions::HssPrivateKey::from, crate::contracts::model_from_fails)
+    { malformed_key::<HavocSum16>(true) }}
+harness_stub! { fn c04_malformed_key_n32() unwind 36
+    stub(hbs_lms::verif_hooks::hss_definitions::HssPrivateKey::from, crate::contracts::model_from_fails)
+    { malformed_key::<HavocSum32>(false) }}
+
+/// Signing proper fails (contract "HssSignature::sign returns Err") on an otherwise usable key:
+/// no callback, no signature.
+harness_stub! { fn c04_sign_fails_no_callback() unwind 36
+    stub(hbs_lms::verif_hooks::hss_signing::HssSignature::sign, crate::contracts::model_hss_sign_fails)
+{
+    let mut key = [0xffu8; 32];
+    let c: u64 = 1;
+    key[..8].copy_from_slice(&c.to_be_bytes());
+    key[8] = 0x14;
+    let seed: [u8; 16] = kani::any();
+    key[16..].copy_from_slice(&seed);
+    let accept: bool = kani::any();
+    let mut calls = 0u32;
+    let mut cb = |_k: &[u8]| { calls += 1; if accept { Ok(()) } else { Err(()) } };
+    let r = hbs_lms::sign::<HavocSum16>(&[1, 2, 3], &key, &mut cb, None);
+    assert!(r.is_err(), "no signature when signing fails");
+    assert!(calls == 0, "callback not invoked when signing fails");
+    kani::cover!(accept, "reached");
+}}
+
+/// C03/C05 step on tall shapes: LMS layer by contract, concrete shape (type bytes assigned),
+/// symbolic counter over the complete lifetime, symbolic seed and callback outcome.
+fn step_contract<H: HashChain>(param_bytes: &[u8], heights: &[u32]) {
+    let levels = param_bytes.len();
+    let mut total = 0u32;
+    let mut l = 0;
+    while l < levels { total += heights[l]; l += 1; }
+    let mut key = [0xffu8; 32];
+    let c: u64 = kani::any();
+    kani::assume(c < (1u64 << total));
+    key[..8].copy_from_slice(&c.to_be_bytes());
+    key[8..8 + levels].copy_from_slice(param_bytes);
+    let seed: [u8; 16] = kani::any();
+    key[16..].copy_from_slice(&seed);
+    let accept: bool = kani::any();
+    let mut calls = 0u32;
+    let mut arg = [0u8; 32];
+    let mut arg_len = 0usize;
+    let mut cb = |k: &[u8]| {
+        calls += 1;
+        arg_len = k.len();
+        if k.len() == 32 { arg.copy_from_slice(k); }
+        if accept { Ok(()) } else { Err(()) }
+    };
+    let life = SigningKey::<H>::from_bytes(&key).unwrap().get_lifetime();
+    assert!(life.ok() == Some((1u64 << total) - c), "remaining lifetime = product of tree sizes - counter");
+    let r = hbs_lms::sign::<H>(&[7u8, 7], &key, &mut cb, None);
+    assert!(calls == 1, "exactly one update for a usable key");
+    assert!(r.is_ok() == accept, "released iff accepted");
+    assert!(arg_len == 32, "complete successor blob");
+    if c < (1u64 << total) - 1 {
+        assert!(arg[..8] == (c + 1).to_be_bytes(), "successor counter is c + 1");
+        let mut k = 8;
+        while k < 32 { assert!(arg[k] == key[k], "successor differs only in the counter"); k += 1; }
+    } else {
+        let mut k = 0;
+        while k < 8 { assert!(arg[k] == 0, "last leaf: wiped counter"); k += 1; }
+        while k < 16 { assert!(arg[k] == 0xff, "last leaf: wiped parameters"); k += 1; }
+        while k < 32 { assert!(arg[k] == 0, "last leaf: wiped seed"); k += 1; }
+    }
+    if let Ok(sig) = &r {
+        // the released signature (contract LMS signatures: q | ots type | C | lms type per level,
+        // followed by the child public key) carries the mixed-radix digits of the *input* counter
+        let s: &[u8] = sig.as_ref();
+        assert!(s[..4] == ((levels - 1) as u32).to_be_bytes(), "level count field");
+        let n = H::OUTPUT_SIZE as usize;
+        let mut off = 4usize;
+        let mut below = total;
+        let mut l = 0;
+        while l < levels {
+            below -= heights[l];
+            let q = u32::from_be_bytes([s[off], s[off + 1], s[off + 2], s[off + 3]]) as u64;
+            assert!(q == (c >> below) & ((1u64 << heights[l]) - 1), "leaf index of every level is the counter digit");
+            // contract signature: q(4) ots type(4) C(n) lms type(4); then the public key (24 + n)
+            off += 4 + 4 + n + 4;
+            if l + 1 < levels { off += 24 + n; }
+            l += 1;
+        }
+        assert!(off == s.len(), "signature consists of exactly `levels` LMS signatures and `levels - 1` public keys");
+    }
+    kani::cover!(r.is_ok() && c == (1u64 << total) - 1, "last signature released");
+    kani::cover!(r.is_err(), "rejected update");
+}
+
+harness_lms_contract! { fn c03_step_contract_h5_h10_h25() unwind 36 { step_contract::<HavocSum16>(&[0x54, 0x64, 0x94], &[5, 10, 25]) }}
+harness_lms_contract! { fn c03_step_contract_h25_h5() unwind 36 { step_contract::<HavocSum16>(&[0x94, 0x54], &[25, 5]) }}
+harness_lms_contract! { fn c03_step_contract_h20() unwind 36 { step_contract::<HavocSum16>(&[0x84], &[20]) }}
+harness_lms_contract! { fn c03_step_contract_h15_h15_h15_h15() unwind 36 { step_contract::<HavocSum16>(&[0x74, 0x74, 0x74, 0x74], &[15, 15, 15, 15]) }}
+harness_lms_contract! { fn c03_step_contract_8x_h5() unwind 36 { step_contract::<HavocSum16>(&[0x54; 8], &[5; 8]) }}
